@@ -1,5 +1,7 @@
 import WfModel.Handlers
+import WfModel.Serial
 import WfProofs.RunnerRecovery
+import WfProofs.EngineWaitUnrepaired
 /-!
 # C08 — exhausted failures route to the owning error handler within budget
 
@@ -9,9 +11,12 @@ import WfProofs.RunnerRecovery
   count on this lineage is still below `max_recoveries` (and then carries the count + 1),
   otherwise — or with no owner — the run fails with the **original** exception and a
   `WorkflowFailedEvent`;
-* lineage budget (runner LTS, every schedule): no attempt, tick or timer anywhere ever
-  carries a recovery count above a handler's budget; each entry into a handler raises that
-  handler's count by exactly one; counts ride unchanged on retries and on step outputs.
+* lineage budget (runner LTS, every schedule, fresh and resumed runs): no attempt, waiter, tick
+  or timer anywhere ever carries a recovery count above a handler's budget; each entry into a
+  handler raises that handler's count by exactly one; counts ride unchanged on retries, on step
+  outputs and — since the repair of C08/handler_entered_beyond_budget:lineage_suspended_in_wait —
+  through a suspension in `ctx.wait_for_event` (resolution, timeout, rehydration); the unrepaired
+  replay (`Waiter.replayUnrepaired`) reset them (`C08_unrepaired_wait_replay_resets_budget`).
 
 Refuted on the unchanged tree: "the same whether or not graph validation is disabled" —
 with `disable_validation=True` the tables are never built (known finding
@@ -156,7 +161,8 @@ theorem C08_fail (cfg : Cfg) (pol : Policy) (step : Nat) (tickEv : Ev) (dc : Boo
 /-! ## the lineage budget -/
 
 /-- **at most `max_recoveries` entries per lineage** (invariant form, every schedule): at every
-point of every run, no attempt (queued or running), no buffered or mailbox tick and no timer
+point of every run, no attempt (queued, running or suspended in a wait — the counts kept in its
+waiter), no buffered or mailbox tick and no timer
 carries, for any handler, a recovery count above that handler's `max_recoveries`.  Together with
 `C08_route` (each entry raises the count by exactly one, `RC.get_set_same`) and the fact that
 counts are copied unchanged to retries and outputs, a lineage can enter a handler at most
@@ -173,64 +179,209 @@ theorem C08_other_counts_kept (rc : RC) (h h' : Nat) (hne : h' ≠ h) : (rc.set 
 
 /-- a fresh run satisfies the invariant -/
 theorem C08_init (cfg : Cfg) (now : Int) (start : Option Ev) (timeout : Option Nat) :
-    RunnerRc cfg (Runner.init cfg initState now start timeout) := by
-  unfold Runner.init
-  dsimp only
-  have hrw : ∀ c ∈ (rewind cfg initState now).2, cmdRcOk cfg c := by
-    have hloop : ∀ (cs : List StepCfg) (st : State) (cmds : List Cmd), (∀ c ∈ cmds, cmdRcOk cfg c) →
-        ∀ c ∈ (rewindLoop now cs st cmds).2, cmdRcOk cfg c := by
-      intro cs
-      induction cs with
-      | nil => intro st cmds h; simpa [rewindLoop] using h
-      | cons d ds ih =>
-        intro st cmds h
-        unfold rewindLoop
-        apply ih
-        intro c hc
-        rcases List.mem_append.mp hc with hc | hc
-        · exact h c hc
-        · unfold rewindStep at hc; exact drain_cmds_rc cfg _ _ _ _ _ c hc
-    unfold rewind; exact hloop _ _ _ (by simp)
-  have hst : RcInv cfg (rewind cfg initState now).1 := by
-    have hloop : ∀ (cs : List StepCfg) (st : State) (cmds : List Cmd), RcInv cfg st →
-        RcInv cfg (rewindLoop now cs st cmds).1 := by
-      intro cs
-      induction cs with
-      | nil => intro st cmds h; simpa [rewindLoop] using h
-      | cons d ds ih =>
-        intro st cmds h
-        unfold rewindLoop
-        apply ih
-        apply RcInv.set h
-        unfold rewindStep
-        apply drain_rcSS
-        refine ⟨?_, by simp⟩
-        intro a ha
-        simp only [List.mem_append, List.mem_reverse, List.mem_map] at ha
-        rcases ha with ⟨ip, hip, rfl⟩ | ha
-        · exact (h d.name).2 ip hip
-        · exact (h d.name).1 a ha
-    unfold rewind; exact hloop _ _ _ (rcInv_init cfg)
-  apply execCmds_rc cfg _ _ hrw
-  have hbuf : ∀ t ∈ rehydrateTicks cfg initState ++
-      (match start with | some e => [Tick.addEvent { ev := e } none] | none => []), tickRcOk cfg t := by
-    intro t ht
-    rcases List.mem_append.mp ht with ht | ht
-    · simp only [rehydrateTicks, List.mem_flatMap, List.mem_map] at ht
-      obtain ⟨_, _, _, _, rfl⟩ := ht
-      exact rcOk_nil cfg
-    · cases start with
-      | none => simp at ht
-      | some e => simp only [List.mem_singleton] at ht; subst ht; exact rcOk_nil cfg
-  cases timeout with
-  | none => exact ⟨hst, hbuf, by intro t ht; simp at ht, by intro t ht; simp at ht⟩
-  | some tmo =>
-    refine ⟨hst, hbuf, by intro t ht; simp [Runner.push] at ht, ?_⟩
-    intro t ht
-    simp only [Runner.push, List.nil_append, List.mem_singleton] at ht
-    subst ht; trivial
+    RunnerRc cfg (Runner.init cfg initState now start timeout) :=
+  init_rc cfg initState (rcInv_init cfg) now start timeout
+
+/-- so does a **resumed** run: `Runner.init` on any reducer state within budget (queued and
+in-progress invocations, and the counts kept in waiters) — in particular on a state loaded from a
+serialised context — starts within budget: re-queued in-progress invocations keep their counts and
+the rehydration ticks carry the counts of the waiters they replay -/
+theorem C08_init_resumed (cfg : Cfg) (st0 : State) (h0 : RcInv cfg st0) (now : Int) (start : Option Ev)
+    (timeout : Option Nat) : RunnerRc cfg (Runner.init cfg st0 now start timeout) :=
+  init_rc cfg st0 h0 now start timeout
+
+/-- the invariant of `C08_lineage_budget` covers invocations **suspended in a wait**: at every
+point of every run the counts kept in every waiter respect every handler's budget -/
+theorem C08_lineage_budget_waiters (cfg : Cfg) (pol : Policy) (r0 : Runner) (h0 : RunnerRc cfg r0) (acts : List Act)
+    (hacts : ∀ a ∈ acts, Act.rcOk cfg a) (s : Nat) (w : Waiter)
+    (hw : w ∈ ((Runner.run cfg pol r0 acts).st.workers s).waiters) (h m : Nat)
+    (hm : lookup cfg.handlers h = some m) : w.rc.get h ≤ m :=
+  ((C08_lineage_budget cfg pol r0 h0 acts hacts).1 s).2.2 w hw h m hm
+
+/-! ## a wait does not reset the budget
+
+An invocation that suspends in `ctx.wait_for_event` leaves `in_progress`; what is left of it is
+the waiter.  The waiter keeps the invocation's attempt record (`newWaiter`), and each of the three
+ways the invocation comes back — the awaited event arrives, the wait times out, the run is
+resumed from a serialised context — replays it with `Waiter.replay`, i.e. with **that** record. -/
+
+/-- **suspension**: after `AddWaiter` the waiter registered under this id replays exactly the
+attempt `rewind_in_progress` would re-queue for the suspended invocation — same event, retry
+counters, times, last exception and recovery counts -/
+theorem C08_wait_suspend_records_attempt (cfg : Cfg) (pol : Policy) (step : Nat) (tickEv : Ev) (dc : Bool)
+    (acc : ResAcc) (wid : Nat) (we : Option Ev) (req tmo : Option Nat) (ty : Nat) :
+    ∃ w, ((applyRes cfg pol step tickEv dc acc (.addWaiter wid we req tmo ty)).st.workers step).waiters.find?
+        (fun x => x.wid == wid) = some w ∧
+      w.replay = inProgToAttempt acc.exec ∧ w.rc = acc.exec.rc := by
+  simp only [applyRes]
+  have key : ∀ (l : List Waiter) (w : Waiter), w.wid = wid → l.any (fun x => x.wid == wid) = true →
+      (modifyFirst (fun x => x.wid == wid) (fun _ => w) l).find? (fun x => x.wid == wid) = some w := by
+    intro l w hw
+    induction l with
+    | nil => simp
+    | cons x xs ih =>
+      intro hany
+      unfold modifyFirst
+      by_cases hx : (x.wid == wid) = true
+      · simp [hx, List.find?_cons, hw]
+      · simp only [hx, Bool.false_eq_true, if_false, List.find?_cons]
+        simp only [List.any_cons, hx, Bool.false_or] at hany
+        exact ih hany
+  split
+  · rename_i hany
+    refine ⟨newWaiter acc.exec wid ty req, ?_, rfl, rfl⟩
+    simp only [State.set, if_true]
+    exact key _ _ rfl hany
+  · rename_i hany
+    refine ⟨newWaiter acc.exec wid ty req, ?_, rfl, rfl⟩
+    simp only [State.set, if_true]
+    rw [List.find?_append]
+    have : (acc.st.workers step).waiters.find? (fun x => x.wid == wid) = none := by
+      rw [List.find?_eq_none]
+      intro x hx
+      simp only [List.any_eq_true, not_exists, not_and] at hany
+      exact hany x hx
+    simp [this, newWaiter]
+
+/-- the replay of a waiter carries the waiter's record -/
+theorem C08_wait_replay_keeps_budget (w : Waiter) :
+    w.replay.rc = w.rc ∧ w.replay.ev = w.ev ∧ w.replay.attempts = some w.attempts ∧
+      w.replay.firstAt = w.firstAt ∧ w.replay.lastExc = w.lastExc ∧ w.replay.lastFailedAt = w.lastFailedAt :=
+  ⟨rfl, rfl, rfl, rfl, rfl, rfl⟩
+
+/-- where a replay lands: with a free worker it is started as a new in-progress invocation with the
+waiter's recovery counts and retry counters (`first_attempt_at or now`), otherwise it is queued as
+it is; nothing else in the step's queue or in-progress list changes -/
+theorem C08_wait_replay_lands (w : Waiter) (step : Nat) (ss : StepState) (nw : Nat) (now : Int) (h : IdsOk ss nw) :
+    (ss.inProg.length < nw → ∃ id,
+        (addOrEnqueue w.replay step ss nw now).1.inProg = ss.inProg ++
+          [{ ev := w.ev, wid := id, snapEvents := ss.collected, snapWaiters := ss.waiters, attempts := w.attempts,
+             firstAt := orInt w.firstAt now, lastExc := w.lastExc, lastFailedAt := w.lastFailedAt, rc := w.rc }] ∧
+        (addOrEnqueue w.replay step ss nw now).1.queue = ss.queue) ∧
+    (¬ ss.inProg.length < nw →
+        (addOrEnqueue w.replay step ss nw now).1.queue = ss.queue ++ [w.replay] ∧
+        (addOrEnqueue w.replay step ss nw now).1.inProg = ss.inProg) := by
+  refine ⟨fun hlt => ?_, fun hge => ?_⟩
+  · unfold addOrEnqueue
+    simp only [hlt, ↓reduceIte]
+    cases hfree : freeIds ss nw with
+    | nil => exact absurd hfree (freeIds_ne_nil h hlt)
+    | cons i rest =>
+      refine ⟨i, ?_, rfl⟩
+      have : orNat (some w.attempts) 0 = w.attempts := by
+        by_cases h0 : w.attempts = 0 <;> simp [orNat, h0]
+      simp [Waiter.replay, this]
+  · unfold addOrEnqueue
+    simp only [hge, ↓reduceIte, and_self]
+
+/-- **resolution keeps the budget**: when the awaited event matches waiter `w`, the step is
+replayed with `w.replay` (and `w` is marked resolved) -/
+theorem C08_wait_replay_keeps_budget_resolve (ev : Ev) (step nw : Nat) (now : Int) (done rest : List Waiter)
+    (w : Waiter) (ss : StepState) (cmds : List Cmd) (hd : Bool) (hm : waiterMatches w ev = true) :
+    resolveLoop ev step nw now done (w :: rest) ss cmds hd =
+      resolveLoop ev step nw now (done ++ [{ w with resolved := some ev }]) rest
+        (addOrEnqueue w.replay step { ss with waiters := done ++ { w with resolved := some ev } :: rest } nw now).1
+        (cmds ++ (addOrEnqueue w.replay step { ss with waiters := done ++ { w with resolved := some ev } :: rest } nw now).2)
+        true := by
+  rw [resolveLoop]
+  simp only [hm, if_true]
+
+/-- **timeout keeps the budget**: when the timeout of a pending waiter `w` fires, the step is
+replayed with `w.replay` (and `w` is marked timed out) -/
+theorem C08_wait_replay_keeps_budget_timeout (cfg : Cfg) (step waiter : Nat) (st : State) (now : Int) (w : Waiter)
+    (hs : cfg.hasStep step = true) (hf : (st.workers step).waiters.find? (fun x => x.wid == waiter) = some w)
+    (hpending : w.resolved = none) :
+    processWaiterTimeout cfg step waiter st now =
+      let ss := st.workers step
+      let ws := modifyFirst (fun x => x.wid == waiter) (fun x => { x with timedOut := true }) ss.waiters
+      let r := addOrEnqueue w.replay step { ss with waiters := ws } (cfg.nw step) now
+      (st.set step r.1, r.2) := by
+  simp [processWaiterTimeout, hs, hf, hpending]
+
+/-- **rehydration keeps the budget**: every tick `rehydrate_with_ticks` emits for a resumed run is
+the replay of a waiter of the loaded state, addressed to the waiter's step, with that waiter's
+recovery counts and retry counters -/
+theorem C08_wait_replay_keeps_budget_rehydrate (cfg : Cfg) (st : State) (t : Tick) (h : t ∈ rehydrateTicks cfg st) :
+    ∃ c ∈ sortedSteps cfg, ∃ w ∈ (st.workers c.name).waiters,
+      t = .addEvent w.replay (some c.name) ∧ w.replay.rc = w.rc ∧ w.replay.attempts = some w.attempts := by
+  obtain ⟨c, hc, w, hw, rfl⟩ := mem_rehydrateTicks h
+  exact ⟨c, hc, w, hw, rfl, rfl, rfl⟩
+
+/-- serialisation keeps the record of a waiter (`to_serialized` / `from_serialized`): recovery
+counts, retry counters, times and last exception -/
+theorem C08_wait_record_survives_serialisation (w : Waiter) :
+    (deserWaiter (serWaiter w)).replay = w.replay := rfl
+
+/-! ### the unrepaired variant: the budget was reset
+
+Before the repair the replay was `EventAttempt(event=waiter.event)` (`Waiter.replayUnrepaired`):
+empty recovery counts.  Witness (the shape of `harness/corpus/c08_wait_replay_resets_budget.json`):
+step 0 is owned by handler 12 with `max_recoveries = 3`; an invocation of step 0 on a lineage that
+already entered the handler three times waits with a timeout; the timeout fires and the replayed
+invocation fails. -/
+
+def C08.wcfg : Cfg :=
+  { steps := [{ name := 0, accepted := [6], numWorkers := 1, hasRetry := false },
+              { name := 12, accepted := [tyStepFailed], numWorkers := 1, hasRetry := false }],
+    handlerFor := [(0, 12)], handlers := [(12, 3)] }
+def C08.wev : Ev := { ty := 6, kind := .plain, uid := 7 }
+def C08.wwaiter : Waiter :=
+  { wid := 1, ev := C08.wev, waitTy := 5, req := none, hasReq := false, attempts := 0, firstAt := some 2,
+    rc := [(12, 3)] }
+def C08.wst : State :=
+  { isRunning := true, workers := fun s => if s = 0 then { waiters := [C08.wwaiter] } else {} }
+def C08.wpol : Policy := fun _ _ _ _ => .stop
+
+/-- the commands of: waiter timeout at t = 5, then the replayed invocation fails at t = 6 -/
+def C08.wrun (red : Tick → State → Int → State × List Cmd) : List Cmd :=
+  let r1 := red (.waiterTimeout 0 1) C08.wst 5
+  (red (.stepResult 0 0 C08.wev [.failed 9 6]) r1.1 6).2
+
+/-- **repaired**: the budget is spent — the run fails with the step's exception -/
+theorem C08_wait_replay_budget_spent_fails :
+    C08.wrun (reduce C08.wcfg C08.wpol) =
+      [.publish (.stepState .notRunning 0 6 .unset (some 0)),
+       .publish (.failed 0 9 1 4), .failWorkflow 0 9] := by decide
+
+/-- **unrepaired, refuted**: the same two ticks entered the handler a **fourth** time (count reset
+to 1 on the replayed lineage) instead of failing the run -/
+theorem C08_unrepaired_wait_replay_resets_budget :
+    C08.wrun (reduceWaitUnrepaired C08.wcfg C08.wpol) ≠ C08.wrun (reduce C08.wcfg C08.wpol) ∧
+    (C08.wrun (reduceWaitUnrepaired C08.wcfg C08.wpol)).filterMap
+        (fun c => match c with | .queueEvent att (some 12) _ => some (att.ev.ty, att.rc) | _ => none) =
+      [(tyStepFailed, [(12, 1)])] ∧
+    Waiter.replayUnrepaired C08.wwaiter ≠ C08.wwaiter.replay ∧
+    (Waiter.replayUnrepaired C08.wwaiter).rc = [] := by decide
+
+/-- the variant differs from the model only in the replay attempt -/
+theorem C08_unrepaired_variant_is_the_model (cfg : Cfg) (pol : Policy) (tick : Tick) (st : State) (now : Int) :
+    reduceWithWaitReplay Waiter.replay cfg pol tick st now = reduce cfg pol tick st now :=
+  reduceWithWaitReplay_model cfg pol tick st now
 
 /-! Non-vacuity -/
+-- a pending waiter that an event of the awaited type resolves; the state of the witness satisfies
+-- the hypotheses of the timeout theorem; a free worker exists; a waiter with lost requirements is re-pinged
+example : waiterMatches C08.wwaiter { ty := 5, kind := .plain, uid := 8 } = true := by decide
+example : C08.wcfg.hasStep 0 = true ∧ (C08.wst.workers 0).waiters.find? (fun x => x.wid == 1) = some C08.wwaiter ∧
+    C08.wwaiter.resolved = none := by decide
+example : IdsOk (C08.wst.workers 0) 1 ∧ (C08.wst.workers 0).inProg.length < 1 := by
+  refine ⟨?_, by decide⟩
+  simp [IdsOk, usedIds, C08.wst]
+example : rehydrateTicks C08.wcfg
+    { isRunning := true, workers := fun s => if s = 0 then { waiters := [{ C08.wwaiter with hasReq := true }] } else {} } =
+    [.addEvent { ev := C08.wev, attempts := some 0, firstAt := some 2, rc := [(12, 3)] } (some 0)] := by decide
+example : RcInv C08.wcfg C08.wst := by
+  intro s
+  refine ⟨?_, ?_, ?_⟩ <;> (by_cases h : s = 0 <;> simp [C08.wst, h, WaitersRc])
+  intro h' m hm
+  have : h' = 12 ∧ m = 3 := by
+    simp only [C08.wcfg, lookup] at hm
+    by_cases e : h' = 12
+    · subst e; simp at hm; exact ⟨rfl, hm.symm⟩
+    · have : ((12 : Nat) == h') = false := by simpa using fun x => e x.symm
+      simp [List.find?_cons, this] at hm
+  obtain ⟨rfl, rfl⟩ := this
+  decide
 def C08.exHs : List Decl := [⟨12, some [2, 4], 2⟩, ⟨13, none, 1⟩]
 example : valid [0, 2, 4, 12, 13] C08.exHs = true := by decide
 example : ([0, 2, 4, 12, 13].map (handlerFor [0, 2, 4, 12, 13] C08.exHs)) = [some 13, some 12, some 12, none, none] := by decide
